@@ -59,95 +59,7 @@ def check(prog, run):
                 run.report(r, "%s:%s.%s:arity" % (c.module.name, c.name, n), m.where(),
                            "%s.%s requires %d positional arguments, the interface %d" % (c.name, n, b["required"], a["required"]))
 
-    # ---- R2 map_value contract
-    r = run.rule("R2", "each map_value/chain body: `then` is attempted exactly once per path; the else_ callback runs only in "
-                       "a handler of that attempt, only under isinstance(err, else_[0]); every other exception is re-raised or "
-                       "transferred with set_exception; each path of a future callback completes the target exactly once", 8)
-    bodies = []
-    bodies.append(("BlockingRuntime.map_value", prog.get_func(BLK, "BlockingRuntime.map_value")))
-    aio = prog.get_func(AIO, "AsyncIORuntime.map_value")
-    bodies.append(("AsyncIORuntime.map_value", aio))
-    for n, f in aio.nested.items():
-        bodies.append(("AsyncIORuntime.map_value.%s" % n, f))
-    ch = prog.get_func(TP, "chain")
-    bodies.append(("chain", ch))
-    for n, f in ch.nested.items():
-        bodies.append(("chain.%s" % n, f))
-    for label, f in bodies:
-        run.looked_at(f)
-        else_names = _else_names(f)
-
-        def ev(n, else_names=else_names):
-            if isinstance(n, ast.Call):
-                fn = n.func
-                if isinstance(fn, ast.Name) and fn.id == "then":
-                    return "then"
-                if isinstance(fn, ast.Name) and fn.id in else_names["cb"]:
-                    return "else"
-                if isinstance(fn, ast.Subscript) and isinstance(fn.value, ast.Name) and fn.value.id == "else_" and ast.unparse(fn.slice) == "1":
-                    return "else"
-                if isinstance(fn, ast.Attribute) and fn.attr in COMPLETE:
-                    return fn.attr
-                if isinstance(fn, ast.Name) and fn.id == "isinstance" and len(n.args) == 2 and _is_else_type(n.args[1], else_names):
-                    return None
-            return None
-
-        def bev(test, truth, else_names=else_names):
-            for n in ast.walk(test):
-                if isinstance(n, ast.Call) and isinstance(n.func, ast.Name) and n.func.id == "isinstance" and len(n.args) == 2 \
-                        and _is_else_type(n.args[1], else_names):
-                    return "match" if truth else "nomatch"
-            return None
-
-        has_then = any(ev(n) == "then" for n in own_nodes(f.node))
-        if not has_then:
-            continue
-
-        def user_code_may_raise(node, ev=ev):
-            """Only user-supplied code raises: then(), the else_ callback, future.result() and awaits."""
-            for x in ast.walk(node):
-                if isinstance(x, ast.Await):
-                    return "*"
-                if isinstance(x, ast.Call):
-                    if ev(x) in ("then", "else"):
-                        return "*"
-                    if isinstance(x.func, ast.Attribute) and x.func.attr == "result":
-                        return "*"
-            return None
-        normal, raised = event_paths(f.node, ev, branch_event=bev, may_raise=user_code_may_raise, raising_events={"then", "else"})
-        is_future_cb = any(ev(n) in COMPLETE for n in own_nodes(f.node))
-        for seq in sorted(normal):
-            core = [e for e in seq if not e.startswith("H:")]
-            r.instance("%s normal path %s" % (label, core))
-            ok = _normal_ok(core, is_future_cb, label)
-            if not ok:
-                run.report(r, "%s:%s:path(%s)" % (f.module.name, label, ">".join(core)), f.where(),
-                           "%s has a path with events %s: violates the map_value contract (then once; else_ only for a matching "
-                           "exception of then; %s)" % (label, core, "target completed exactly once" if is_future_cb else "other exceptions re-raised"))
-        for seq in sorted(raised):
-            core = [e for e in seq if not e.startswith("H:")]
-            r.instance("%s raising path %s" % (label, core))
-            if is_future_cb:
-                # an exception leaving a done-callback is swallowed by concurrent.futures: target must already be complete
-                # paths raised by `then`/`result` inside the try are routed to handlers, so any escape is from a handler body
-                if not any(e in COMPLETE for e in core) and "then!" in core and "else!" not in core and not core[-2:-1] == ["else!"]:
-                    run.report(r, "%s:%s:escape(%s)" % (f.module.name, label, ">".join(core)), f.where(),
-                               "an exception can leave the done-callback %s without completing the target future: the chained "
-                               "result would stay pending forever" % label)
-            else:
-                # sync variant: escaping exception must be the re-raise of then's failure with no else_ applied unless matched
-                if "else" in core and "match" not in core:
-                    run.report(r, "%s:%s:else-unguarded(%s)" % (f.module.name, label, ">".join(core)), f.where(),
-                               "else_ callback applied without the isinstance(err, else_[0]) guard")
-        if not is_future_cb:
-            need_reraise = any(("then!" in s and s[-1] in ("raise:reraise",) and "else" not in s) for s in raised)
-            r.instance("%s re-raises unmatched exceptions: %s" % (label, need_reraise))
-            if not need_reraise and any("then" in s for s in normal):
-                # the deferred asyncio branch and chain's immediate branch both need it
-                if any(isinstance(n, ast.ExceptHandler) for n in own_nodes(f.node)):
-                    run.report(r, "%s:%s:swallows" % (f.module.name, label), f.where(),
-                               "%s catches exceptions of `then` but has no path that re-raises the unmatched ones: an unexpected "
-                               "resolver exception is lost" % label)
+    check_map_value_contract(prog, run, "R2")
 
     # ---- R3 future completion in unwrap_future / gather_futures callbacks
     r = run.rule("R3", "every path through a done-callback of threadpool.py completes its outer future exactly once "
@@ -420,6 +332,8 @@ def check(prog, run):
     check_flatten_before_finalise(prog, run)
     from . import c09
     c09.check_deferred_conservation(prog, run, "R11")
+    check_deferred_predicate(prog, run, "R12")
+    c09.check_guarded_flatten(prog, run, "R13")
     from .. import sentinel
     sentinel.check(prog, run, "R10", ["py_gql.execution"], 6,
                    "an unexpected IndexError/KeyError from a resolver would be lost under one executor/runtime and surface under the others")
@@ -532,3 +446,132 @@ def check_flatten_before_finalise(prog, run):
                                "the response data under the asyncio and thread-pool runtimes" % (cond or "(unconditional)"))
                     break
     shapes.require(found >= 2, "C08.R9: expected the finalising map_value of execute() and of execute_subscription_event(), found %d" % found)
+
+
+def check_deferred_predicate(prog, run, rule_id):
+    """One deferred-ness predicate per runtime; flattening loops re-test with it."""
+    r = run.rule(rule_id, "each deferred runtime decides `is this value deferred?` with ONE predicate: every value test in the if/while/"
+                          "ternary conditions of asyncio.py (resp. threadpool.py) that is not an exception-class test or a test on a "
+                          "callable uses the same function, in particular the re-test that keeps unwrap_value / unwrap_future "
+                          "flattening — a narrower re-test (coroutines only) hands a still-pending Future/Task to completion as if it "
+                          "were the resolver's value", 8)
+    for modname in (AIO, TP):
+        mod = prog.module(modname)
+        preds = {}
+        for f in prog.all_funcs():
+            if f.module is not mod:
+                continue
+            for n in own_nodes(f.node):
+                if not isinstance(n, (ast.If, ast.While, ast.IfExp)):
+                    continue
+                for c in ast.walk(n.test):
+                    if isinstance(c, ast.Call) and isinstance(c.func, (ast.Name, ast.Attribute)) and len(c.args) == 1:
+                        name = ast.unparse(c.func)
+                        if name in ("isinstance", "len", "callable") or name.endswith("function") or name.endswith("callable"):
+                            continue
+                        preds.setdefault(name, []).append((f, n, c))
+                        r.instance("%s: %s tests `%s`" % (modname.split(".")[-1], f.qualname, ast.unparse(c)))
+        if not preds:
+            raise AnalysisError("%s: no deferred-ness predicate found in %s" % (rule_id, modname))
+        if len(preds) > 1:
+            major = max(preds, key=lambda k: len(preds[k]))
+            for name, sites in sorted(preds.items()):
+                if name == major:
+                    continue
+                f, n, c = sites[0]
+                run.report(r, "%s:%s:second-predicate(%s)" % (modname, f.qualname, name), f.where(c),
+                           "`%s` decides deferred-ness here while the rest of %s uses `%s`: values the second test rejects but the "
+                           "first accepts (a Future or Task that is not a coroutine) are left unflattened or handled as plain values"
+                           % (ast.unparse(c), modname.split(".")[-1], major))
+
+
+def check_map_value_contract(prog, run, rule_id):
+    # ---- R2 map_value contract
+    r = run.rule(rule_id, "each map_value/chain body: `then` is attempted exactly once per path; the else_ callback runs only in "
+                       "a handler of that attempt, only under isinstance(err, else_[0]); every other exception is re-raised or "
+                       "transferred with set_exception; each path of a future callback completes the target exactly once", 8)
+    bodies = []
+    bodies.append(("BlockingRuntime.map_value", prog.get_func(BLK, "BlockingRuntime.map_value")))
+    aio = prog.get_func(AIO, "AsyncIORuntime.map_value")
+    bodies.append(("AsyncIORuntime.map_value", aio))
+    for n, f in aio.nested.items():
+        bodies.append(("AsyncIORuntime.map_value.%s" % n, f))
+    ch = prog.get_func(TP, "chain")
+    bodies.append(("chain", ch))
+    for n, f in ch.nested.items():
+        bodies.append(("chain.%s" % n, f))
+    for label, f in bodies:
+        run.looked_at(f)
+        else_names = _else_names(f)
+
+        def ev(n, else_names=else_names):
+            if isinstance(n, ast.Call):
+                fn = n.func
+                if isinstance(fn, ast.Name) and fn.id == "then":
+                    return "then"
+                if isinstance(fn, ast.Name) and fn.id in else_names["cb"]:
+                    return "else"
+                if isinstance(fn, ast.Subscript) and isinstance(fn.value, ast.Name) and fn.value.id == "else_" and ast.unparse(fn.slice) == "1":
+                    return "else"
+                if isinstance(fn, ast.Attribute) and fn.attr in COMPLETE:
+                    return fn.attr
+                if isinstance(fn, ast.Name) and fn.id == "isinstance" and len(n.args) == 2 and _is_else_type(n.args[1], else_names):
+                    return None
+            return None
+
+        def bev(test, truth, else_names=else_names):
+            for n in ast.walk(test):
+                if isinstance(n, ast.Call) and isinstance(n.func, ast.Name) and n.func.id == "isinstance" and len(n.args) == 2 \
+                        and _is_else_type(n.args[1], else_names):
+                    return "match" if truth else "nomatch"
+            return None
+
+        has_then = any(ev(n) == "then" for n in own_nodes(f.node))
+        if not has_then:
+            continue
+
+        def user_code_may_raise(node, ev=ev):
+            """Only user-supplied code raises: then(), the else_ callback, future.result() and awaits."""
+            for x in ast.walk(node):
+                if isinstance(x, ast.Await):
+                    return "*"
+                if isinstance(x, ast.Call):
+                    if ev(x) in ("then", "else"):
+                        return "*"
+                    if isinstance(x.func, ast.Attribute) and x.func.attr == "result":
+                        return "*"
+            return None
+        normal, raised = event_paths(f.node, ev, branch_event=bev, may_raise=user_code_may_raise, raising_events={"then", "else"})
+        is_future_cb = any(ev(n) in COMPLETE for n in own_nodes(f.node))
+        for seq in sorted(normal):
+            core = [e for e in seq if not e.startswith("H:")]
+            r.instance("%s normal path %s" % (label, core))
+            ok = _normal_ok(core, is_future_cb, label)
+            if not ok:
+                run.report(r, "%s:%s:path(%s)" % (f.module.name, label, ">".join(core)), f.where(),
+                           "%s has a path with events %s: violates the map_value contract (then once; else_ only for a matching "
+                           "exception of then; %s)" % (label, core, "target completed exactly once" if is_future_cb else "other exceptions re-raised"))
+        for seq in sorted(raised):
+            core = [e for e in seq if not e.startswith("H:")]
+            r.instance("%s raising path %s" % (label, core))
+            if is_future_cb:
+                # an exception leaving a done-callback is swallowed by concurrent.futures: target must already be complete
+                # paths raised by `then`/`result` inside the try are routed to handlers, so any escape is from a handler body
+                if not any(e in COMPLETE for e in core) and "then!" in core and "else!" not in core and not core[-2:-1] == ["else!"]:
+                    run.report(r, "%s:%s:escape(%s)" % (f.module.name, label, ">".join(core)), f.where(),
+                               "an exception can leave the done-callback %s without completing the target future: the chained "
+                               "result would stay pending forever" % label)
+            else:
+                # sync variant: escaping exception must be the re-raise of then's failure with no else_ applied unless matched
+                if "else" in core and "match" not in core:
+                    run.report(r, "%s:%s:else-unguarded(%s)" % (f.module.name, label, ">".join(core)), f.where(),
+                               "else_ callback applied without the isinstance(err, else_[0]) guard")
+        if not is_future_cb:
+            need_reraise = any(("then!" in s and s[-1] in ("raise:reraise",) and "else" not in s) for s in raised)
+            r.instance("%s re-raises unmatched exceptions: %s" % (label, need_reraise))
+            if not need_reraise and any("then" in s for s in normal):
+                # the deferred asyncio branch and chain's immediate branch both need it
+                if any(isinstance(n, ast.ExceptHandler) for n in own_nodes(f.node)):
+                    run.report(r, "%s:%s:swallows" % (f.module.name, label), f.where(),
+                               "%s catches exceptions of `then` but has no path that re-raises the unmatched ones: an unexpected "
+                               "resolver exception is lost" % label)
